@@ -251,7 +251,7 @@ def run_seq_law(ctx, p):
                 got_m, want_m = as_motion(c, got.data[0]), as_motion(c, acc.data[0])
                 d_ = float(np.max(np.abs(np.asarray(got_m) - np.asarray(want_m)))) if len(got) == 1 else math.inf
                 sc_ = max([1.0, tmag(got_m), tmag(want_m)] + [tmag(as_motion(c, o)) for o in xs])
-                ctx.judge('law', d_ <= TOL * sc_ * len(xs), dict(sig, kind='mismatch', m=min(len(xs), 4)),
+                ctx.judge('law', d_ <= TOL_TW * sc_, dict(sig, kind='mismatch', m=min(len(xs), 4)),       # (twists as motions: 1e-7, as for every other twist law)
                           lambda: '%s.prod() of %d twists differs from the left-to-right product by %.3g' % (c, len(xs), d_))
                 ctx.cell('law', c, law, '%d' % len(xs))
                 ctx.nontrivial(c, law, len(xs), [np.round(o, 6).tolist() for o in xs])
